@@ -478,7 +478,12 @@ def _truth_of(c):
     if c.op == "count" and len(c.args) == 1 and isinstance(c.args[0], Term):
         return Term("any", c.args[0])
     if c.op in ("lt", "le", "gt", "ge") and len(c.args) == 2:
-        l_, r_ = c.args
+        def _mm(z):
+            # x[argmin(x)] is min(x), x[argmax(x)] is max(x)
+            if isinstance(z, Term) and z.op == "getitem" and isinstance(z.args[1], Term) and z.args[1].op in ("argmin", "argmax") and len(z.args[1].args) == 1 and z.args[1].args[0] == z.args[0]:
+                return Term("amin" if z.args[1].op == "argmin" else "amax", z.args[0])
+            return z
+        l_, r_ = _mm(c.args[0]), _mm(c.args[1])
         if isinstance(l_, Term) and len(l_.args) == 1 and ((l_.op == "amin" and c.op in ("lt", "le")) or (l_.op == "amax" and c.op in ("gt", "ge"))) and not (isinstance(r_, Term) and r_.op in ("amin", "amax")):
             return Term("any", Term(c.op, l_.args[0], r_))
         if isinstance(r_, Term) and len(r_.args) == 1 and ((r_.op == "amin" and c.op in ("gt", "ge")) or (r_.op == "amax" and c.op in ("lt", "le"))) and not (isinstance(l_, Term) and l_.op in ("amin", "amax")):
@@ -985,16 +990,16 @@ class Normalizer:
             return self.linear_reduce(op, a)
         if op == "full" and len(a) >= 2 and isinstance(a[0], Term) and a[0].op == "const" and (a[0].args[0] is True or (isinstance(a[0].args[0], (int, Fraction)) and not isinstance(a[0].args[0], bool) and a[0].args[0] == 1)):
             return self.nf(Term("ones", *a[1:]))  # np.full(shape, True / 1) == np.ones(shape)
+        if op in ("lt", "le", "gt", "ge") and _truth_of(t) is not t:
+            return self.nf(_truth_of(t))  # min(v) < c is any(v < c), max(v) > c is any(v > c)
         if op == "phi":
-            c0 = _truth_of(a[0])
-            if c0 is not a[0]:
-                return self.nf(Term("phi", c0, a[1], a[2]))
+            c0 = a[0]
             if isinstance(c0, Term) and c0.op == "not" and len(c0.args) == 1:
                 return self.nf(Term("phi", c0.args[0], a[2], a[1]))  # if not c: A else: B
             if isinstance(c0, Term) and c0.op in ("eq", "ne") and len(c0.args) == 2 and any(_is_zero_t(z) for z in c0.args) and not all(_is_zero_t(z) for z in c0.args):
                 # `if n == 0` is `if not n`, `if n != 0` is `if n`, for a count n
                 z_ = c0.args[1] if _is_zero_t(c0.args[0]) else c0.args[0]
-                if isinstance(z_, Term) and z_.op in ("count", "len"):
+                if isinstance(z_, Term) and z_.op == "count":
                     return self.nf(Term("phi", z_, a[2], a[1]) if c0.op == "eq" else Term("phi", z_, a[1], a[2]))
             # the same slot of the same array written on both arms: one store of the selected value
             mg = self._merge_phi_stores(t)
@@ -1009,7 +1014,7 @@ class Normalizer:
             if common and len(common) < max(len(dx), len(dy)):
                 rx = _mk({m: k for m, k in dx.items() if m not in common})
                 ry = _mk({m: k for m, k in dy.items() if m not in common})
-                return p_add(_mk(common), P_atom(A("phi", self.freeze(a[0]), wrap(rx), wrap(ry))))
+                return p_add(_mk(common), P_atom(A("phi", self.freeze(_truth_of(a[0])), wrap(rx), wrap(ry))))
             # `if len(idx) > 0: b[idx] = v` : a store through an empty index is the identity
             # only the exact guard "the index array is non-empty" (len(idx) > 0, 0 < len(idx),
             # len(idx) != 0, len(idx) >= 1, truthiness of len) on the taken branch qualifies
@@ -1020,7 +1025,7 @@ class Normalizer:
             st_t, other = a[2], a[1]
             if isinstance(st_t, Term) and st_t.op == "store" and self.nf(st_t.args[0]) == self.nf(other) and _empty_guard(a[0], st_t.args[1]):
                 return self.nf(st_t)
-            return P_atom(A("phi", self.freeze(a[0]), wrap(x), wrap(y)))
+            return P_atom(A("phi", self.freeze(_truth_of(a[0])), wrap(x), wrap(y)))
         if op in ("len", "size") and len(a) == 1 and isinstance(a[0], Term):
             # number of selected entries: len(flatnonzero(m)) = len(v[m]) = count(m) (v a vector, m a mask over it)
             x_ = a[0]
